@@ -88,7 +88,7 @@ def fail_top(P, res):
     being combined (a partial join, one branch): the fallback is built independently (Type::Any, Type::error, the expected type)."""
     n = 0
     for p_, f in sorted(P.funcs.items()):
-        if p_ in UNIFIERS:
+        if p_.split("::{closure")[0] in UNIFIERS:
             continue
         for bi, t in f.calls():
             cn = M.callee_name(t)
@@ -191,7 +191,7 @@ def join_must_pass(P, res):
     the unify / unify_all call: no shortcut (an early `return Type::unit()` when one branch is Unit, say) bypasses the join."""
     n = 0
     for p_, f in sorted(P.funcs.items()):
-        if p_ in UNIFIERS:
+        if p_.split("::{closure")[0] in UNIFIERS:
             continue
         rets = [bi for bi in f.reachable_blocks() if f.blocks[bi]["term"]["t"] == "return"]
         for bi, t in f.calls():
